@@ -140,6 +140,61 @@ def pipeline(prop, tier, seed, families, with_real=False, second_run=False):
             "nevents": len(lines), "wall": time.time() - t0}
 
 
+def rules_compile(p):
+    """Compile the items of family `rule` with rustc and the real macros (one library crate, one module per item);
+    append one `Diag` event per item to the trace: every error reported inside the item, with the method it points into."""
+    items = p["items"]
+    rules = [it for it in items if it["family"] == "rule"]
+    gdir = os.path.join(CACHE, "gen", "rules")
+    src, ranges = gen_static.render_rules_crate(rules)
+    from gen.routing import cargo_shard
+    common.write_if_changed(os.path.join(gdir, "Cargo.toml"), cargo_shard("verif-rules", HARNESS, REPO).replace(
+        "publish = false", "publish = false\n\n[lib]\npath = \"src/lib.rs\"\n\n[workspace]"))
+    common.write_if_changed(os.path.join(gdir, "src", "lib.rs"), src)
+    common.write_if_changed(os.path.join(gdir, ".cargo", "config.toml"), "[net]\noffline = true\n")
+    rc, out, _ = common.cargo(["check", "--message-format=json"], gdir, check=False, timeout=1800)
+    errs = {it["id"]: [] for it in rules}
+    loose = []
+    for line in out.splitlines():
+        if not line.startswith("{"):
+            continue
+        try:
+            m = json.loads(line)
+        except ValueError:
+            continue
+        if m.get("reason") != "compiler-message" or m.get("message", {}).get("level") != "error":
+            continue
+        msg = m["message"]
+        text = msg.get("message", "")
+        if text.startswith("aborting due to") or text.startswith("could not compile"):
+            continue
+        prim = [sp for sp in msg.get("spans", []) if sp.get("is_primary")] or msg.get("spans", [])
+        line_no = prim[0].get("line_start", 0) if prim else 0
+        hit = None
+        for iid, (a, b, members) in ranges.items():
+            if a <= line_no <= b:
+                hit = iid
+                member = next((n for n, (x, y) in members.items() if x <= line_no <= y), "")
+                errs[iid].append({"code": (msg.get("code") or {}).get("code", "") or "", "msg": text[:200], "member": member,
+                                  "panicked": text.startswith("custom attribute panicked") or text.startswith("proc macro panicked") or "proc-macro derive panicked" in text,
+                                  "line": line_no - a + 1})
+        if hit is None:
+            loose.append(text)
+    if loose:
+        raise ToolError("the rules crate has errors outside every item (harness prelude?):\n" + "\n".join(loose[:5]))
+    if rc != 0 and not any(errs.values()):
+        raise ToolError("cargo check of the rules crate failed without diagnostics:\n" + out[-2000:])
+    pos = {it["id"]: i + 1 for i, it in enumerate(items)}
+    evs = [{"ev": "Diag", "id": it["id"], "ix": pos[it["id"]], "prev": 0, "macro": it["macro"], "errors": errs[it["id"]]} for it in rules]
+    with open(p["trace"], "a") as f:
+        for e in evs:
+            f.write(json.dumps(e) + "\n")
+    p["nevents"] += len(evs)
+    p["rules_src"] = src
+    p["rules_ranges"] = ranges
+    return evs
+
+
 def validate(prop, p, report):
     v = tlc_trace("Trace_Static", "Trace_Static.cfg", p["trace"], env={"VERIF_PROGS": p["items_path"], "VERIF_FOCUS": prop},
                   timeout=3000, resync="next")
@@ -159,6 +214,8 @@ def validate(prop, p, report):
         src = gen_static.render(it) if it else ev.get("id", "")
         key = "%s|%s" % (mine[0], feature_key(prop, it, ev))
         what = "%s: clause `%s` fails for item %s (%s macro)" % (prop, mine[0], ev.get("id"), ev.get("macro"))
+        if ev.get("ev") == "Diag":
+            what += "; rustc reported inside the item: %s" % json.dumps(ev.get("errors"))[:600]
         report.violation(key, what, {"item.rs": src, "event.json": ev, "item.json": it or {}})
     return v
 
